@@ -30,11 +30,11 @@ def ECbM (fuel : Nat) : Prop :=
 
 def ESsM (fuel : Nat) : Prop :=
   ∀ me p1 id1 sels1 p2 id2 sels2 c, CI s d c → SelSet d id1 sels1 → Adm s d id1 p1 → SelSet d id2 sels2 →
-    Adm s d id2 p2 → NotBody d id1 → NotBody d id2 →
+    Adm s d id2 p2 →
     (betweenSubselectionsM s fx fuel me p1 id1 sels1 p2 id2 sels2 c).2.crash = none →
     GPM s d c (betweenSubselectionsM s fx fuel me p1 id1 sels1 p2 id2 sels2 c) (fun M => SetsResM s d M me id1 p1 sels1 id2 p2 sels2)
 
-theorem stepM_efind (hnb : ∀ e, Ent s d e → e.hasSub = true → NotBody d e.ssid) (fuel : Nat) (hss : ESsM s fx d fuel) :
+theorem stepM_efind (fuel : Nat) (hss : ESsM s fx d fuel) :
     EFindM s fx d (fuel + 1) := by
   intro pme f1 f2 c hc h1 h2
   simp only [findConflictM]
@@ -94,7 +94,7 @@ theorem stepM_efind (hnb : ∀ e, Ent s d e → e.hasSub = true → NotBody d e.
         obtain ⟨s1, a1⟩ := h1.sub hsd.1
         obtain ⟨s2, a2⟩ := h2.sub hsd.2
         intro hcr
-        have g := hss me _ _ _ _ _ _ c hc s1 a1 s2 a2 (hnb _ h1 hsd.1) (hnb _ h2 hsd.2) hcr
+        have g := hss me _ _ _ _ _ _ c hc s1 a1 s2 a2 hcr
         refine (g.count _ (fun h0 => ?_)).imp (fun M _ r => ?_)
         · have hk : ¬ ((betweenSubselectionsM s fx fuel me ((f1.fdef.map (·.type)).map (·.base)) f1.ssid f1.sub
               ((f2.fdef.map (·.type)).map (·.base)) f2.ssid f2.sub c).1 > 0) := fun hk => by
